@@ -49,14 +49,14 @@ def _run_body(fi, env, what):
 _PKG = {}
 
 
-def base_env(repo):
+def base_env(repo, rel=FILE):
     """The module environment of circuit.py (module-level constants and helper functions evaluated from source)."""
     from ..pkgenv import Package
 
     if id(repo) not in _PKG:
         _PKG[id(repo)] = Package(repo)
     voc = type_vocabulary(repo)
-    env = dict(_PKG[id(repo)].env(FILE))
+    env = dict(_PKG[id(repo)].env(rel))  # the module that defines the method (a mixin of Circuit may live in a module of its own)
     env.update({"supported_types": list(voc["supported_types"]), "addable_types": list(voc["addable_types"]), "primitive_gates": list(voc["primitive_gates"])})
     return env
 
@@ -108,7 +108,7 @@ def check_connect(chk, repo, sup):
                                             continue  # not a reachable state
                                         n_states += 1
                                         want_err = reference_connect_error(c, us, vs)
-                                        env = base_env(repo)
+                                        env = base_env(repo, fi.file)
                                         env.update({"self": c, pu: "u" if as_str else list(us), pv: "v" if as_str else list(vs)})
                                         r = _run_body(fi, env, "Circuit.connect")
                                         added = [l for l in c._log if l[0] == "add_edge"]
@@ -130,7 +130,7 @@ def check_connect(chk, repo, sup):
         attrs = {"u": {"type": "and", "output": False}, "v": {"type": "and", "output": False}}
         attrs.pop(miss)
         c = MMutCircuit(attrs, [])
-        env = base_env(repo)
+        env = base_env(repo, fi.file)
         env.update({"self": c, pu: ["u"], pv: ["v"]})
         r = _run_body(fi, env, "Circuit.connect")
         n_states += 1
@@ -192,7 +192,7 @@ def check_add(chk, repo, sup):
                                         fanout = ["o"] if nfo else []
                                         c = MMutCircuit(attrs, edges)
                                         before_nodes = set(attrs)
-                                        env = base_env(repo)
+                                        env = base_env(repo, fi.file)
                                         env.update({"self": c, "n": name, "node_type": t, "fanin": list(fanin) if nfi != 1 else fanin[0], "fanout": list(fanout),
                                                     "output": False, "add_connected_nodes": acn, "allow_redefinition": allow, "uid": uid})
                                         r = _run_body(fi, env, "Circuit.add")
@@ -284,7 +284,7 @@ def check_uid(chk, repo):
             if k == 71:
                 names = {"x"} | {f"x_{i}" for i in range(11)} | {"x_70"}
             c = MMutCircuit({m: {"type": "and"} for m in names}, [])
-            env = base_env(repo)
+            env = base_env(repo, fi.file)
             env.update({"self": c, params[1]: "x"})
             if len(params) > 2:
                 env[params[2]] = blocked
@@ -304,7 +304,7 @@ def check_set_type(chk, repo, voc):
     for t in list(voc["supported_types"]) + ["bogus"] + NEAR_MISS_TYPES:
         for as_str in (True, False):
             c = MMutCircuit({"a": {"type": "and", "output": False}, "b": {"type": "or", "output": False}}, [])
-            env = base_env(repo)
+            env = base_env(repo, fi.file)
             env.update({"self": c, params[1]: "a" if as_str else ["a", "b"], params[2]: t})
             r = _run_body(fi, env, "Circuit.set_type")
             n += 1
@@ -425,7 +425,7 @@ def may_raise_functions(repo):
                 continue
             for n in walk_no_nested(fi.node):
                 if isinstance(n, ast.Call) and isinstance(n.func, ast.Attribute) and dotted(n.func.value) == "self" and n.func.attr in direct:
-                    if n.func.attr == "set_type" and set_type_literal_ok(n, repo):
+                    if n.func.attr == "set_type" and set_type_literal_ok(n, repo, fi.file):
                         continue  # set_type with a literal addable type has no rejecting path
                     direct.add(m)
                     changed = True
@@ -433,25 +433,26 @@ def may_raise_functions(repo):
     return direct
 
 
-def _enum_constant(expr, repo):
+def _enum_constant(expr, repo, rel=FILE):
     """`<EnumClass>.<MEMBER>.value` (or `<EnumClass>.<MEMBER>` of a str-valued enum) for an Enum class circuit.py defines -> the literal."""
     if isinstance(expr, ast.Attribute) and expr.attr == "value":
         expr = expr.value
-    if isinstance(expr, ast.Attribute) and isinstance(expr.value, ast.Name):
-        for st in repo.tree[FILE].body:
-            if isinstance(st, ast.ClassDef) and st.name == expr.value.id and any(norm(b_).split(".")[-1] in ("Enum", "StrEnum") for b_ in st.bases):
+    if isinstance(expr, ast.Attribute) and isinstance(expr.value, (ast.Name, ast.Attribute)):
+        key = repo.class_of_expr(rel, expr.value)  # the class may be imported from another module of the package
+        for st in ([repo.classes[key]] if key else []):
+            if isinstance(st, ast.ClassDef) and any(norm(b_).split(".")[-1] in ("Enum", "StrEnum") for b_ in st.bases):
                 for x in st.body:
                     if isinstance(x, ast.Assign) and len(x.targets) == 1 and isinstance(x.targets[0], ast.Name) and x.targets[0].id == expr.attr and isinstance(x.value, ast.Constant):
                         return x.value.value
     return None
 
 
-def set_type_literal_ok(call, repo):
+def set_type_literal_ok(call, repo, rel=FILE):
     voc = type_vocabulary(repo)
     a = kwarg(call, "t", 1)
     if isinstance(a, ast.Constant):
         return a.value in voc["addable_types"]
-    return a is not None and _enum_constant(a, repo) in voc["addable_types"]
+    return a is not None and _enum_constant(a, repo, rel) in voc["addable_types"]
 
 
 class Order:
@@ -483,7 +484,7 @@ class Order:
                         adds = adds or has_conn
                         raises = True
                     elif a == "set_type":
-                        if not set_type_literal_ok(n, self.repo):
+                        if not set_type_literal_ok(n, self.repo, self.fi.file):
                             raises = True
                     elif a in self.raising and a not in ("type", "is_output", "filter_type", "inputs", "outputs", "io", "startpoints", "endpoints", "fanin", "fanout"):
                         raises = True
